@@ -493,6 +493,14 @@ CATALOGUE['C12'] += [
   (S, None, _F, "                        addyears = (\n                            refcdate - crefdate).total_seconds() / yearseconds", "                        refoffset = refcdate - crefdate\n                        addyears = refoffset.total_seconds() / yearseconds"),
 ]
 
+CATALOGUE['C14'] += [
+  (F, 'R-SCANEOF', 'camxfiles/wind/Memmap.py', "            if not rf.next():\n                raise ValueError('End of file before the end of the first ' +\n                                 'time step; file may be truncated')\n", "            rf.next()\n"),
+  (S, None, 'camxfiles/wind/Memmap.py', "            if not rf.next():\n                raise ValueError(", "            more = rf.next()\n            if not more:\n                raise ValueError("),
+]
+CATALOGUE['C13'] += [
+  (F, 'R-SCANEOF', 'camxfiles/wind/Read.py', "            if not self.rffile.next():\n                raise ValueError('End of file before a second time header; ' +\n                                 'the time step cannot be determined')\n", "            self.rffile.next()\n"),
+]
+
 def _findings(prop, overlay):
     warnings.simplefilter('ignore')
     mod = importlib.import_module('pncstatic.rules.%s' % prop.lower())
